@@ -28,6 +28,28 @@ pub trait SimdOp {
 /// This function will check the available SIMD instruction sets and then
 /// dispatch to [`SimdOp::eval`], passing the selected [`Isa`].
 pub fn dispatch<Op: SimdOp>(op: Op) -> Op::Output {
+    #[cfg(rten_verif)]
+    match verif::forced_isa() {
+        verif::FORCE_GENERIC => return op.eval(super::arch::generic::GenericIsa::new()),
+        #[cfg(target_arch = "x86_64")]
+        verif::FORCE_AVX2 => {
+            #[target_feature(enable = "avx2")]
+            #[target_feature(enable = "avx")]
+            #[target_feature(enable = "fma")]
+            #[target_feature(enable = "f16c")]
+            unsafe fn verif_dispatch_avx2<Op: SimdOp>(isa: impl Isa, op: Op) -> Op::Output {
+                op.eval(isa)
+            }
+            if let Some(isa) = super::arch::x86_64::Avx2Isa::new() {
+                // Safety: AVX2 is supported
+                unsafe {
+                    return verif_dispatch_avx2(isa, op);
+                }
+            }
+        }
+        _ => {}
+    }
+
     #[cfg(target_arch = "aarch64")]
     if let Some(isa) = super::arch::aarch64::ArmNeonIsa::new() {
         return op.eval(isa);
@@ -246,5 +268,29 @@ mod tests {
         let mut buf = [1.0f32, 2., 3., 4.];
         Double {}.map_mut(&mut buf);
         assert_eq!(buf, [2., 4., 6., 8.]);
+    }
+}
+
+/// Verification hooks (used by the checkers in /verif). Not part of the API.
+///
+/// Lets a harness force [`dispatch`] to use a less-preferred instruction set so
+/// that whole vectorized routines can be run on every ISA of the machine.
+#[cfg(rten_verif)]
+pub mod verif {
+    use std::sync::atomic::{AtomicU8, Ordering};
+
+    pub const FORCE_NONE: u8 = 0;
+    pub const FORCE_GENERIC: u8 = 1;
+    pub const FORCE_AVX2: u8 = 2;
+
+    static FORCED_ISA: AtomicU8 = AtomicU8::new(FORCE_NONE);
+
+    /// Force the ISA used by `dispatch` for the whole process.
+    pub fn force_isa(isa: u8) {
+        FORCED_ISA.store(isa, Ordering::SeqCst);
+    }
+
+    pub fn forced_isa() -> u8 {
+        FORCED_ISA.load(Ordering::SeqCst)
     }
 }
